@@ -269,7 +269,11 @@ def run_dialogview(case):
     _repo()
     from simpleline import App
     App.initialize()
-    if not _TMP: _TMP.append(tempfile.mkdtemp(prefix="verif-help-", dir=os.path.join(os.path.dirname(os.path.dirname(os.path.dirname(os.path.abspath(__file__)))), "out")))
+    if not _TMP:
+        base = os.path.join(os.path.dirname(os.path.dirname(os.path.dirname(os.path.abspath(__file__)))), "out", "help")
+        os.makedirs(base, exist_ok=True)
+        import atexit, shutil
+        _TMP.append(tempfile.mkdtemp(prefix="h-", dir=base)); atexit.register(shutil.rmtree, _TMP[0], True)
     out, mcase = _views().run_real_dialog(case, _TMP[0])
     out["_model_case"] = mcase
     return out
